@@ -16,6 +16,7 @@ import (
 	"verif/internal/gen"
 	"verif/internal/gt"
 	"verif/internal/h"
+	"verif/internal/ops"
 	"verif/internal/ref"
 )
 
@@ -29,7 +30,10 @@ type MatCase struct {
 	Metric string      `json:"metric"` // brlen | boot | none
 	CLI    bool        `json:"cli,omitempty"`
 	Mem    int         `json:"mem,omitempty"` // > 0: trees re-rooted in memory first (distances do not depend on the rooting)
+	Ops    []ops.Op    `json:"ops,omitempty"` // edit history applied to the (indexed) first tree before the matrix is computed
 }
+
+var historyKinds = []string{"reroot", "prune", "graft", "graft_tip_on_edge", "identical_one", "rename", "rename_auto", "shuffle_tips", "collapse_len", "resolve", "unroot", "rotate", "nni", "reinit", "scale_lengths"}
 
 var metricOf = map[string][2]int{"brlen": {tree.DISTANCE_METRIC_BRLEN, ref.MetricLen}, "boot": {tree.DISTANCE_METRIC_BOOTS, ref.MetricSup}, "none": {tree.DISTANCE_METRIC_NONE, ref.MetricOne}}
 
@@ -50,6 +54,18 @@ func genMat(t *rapid.T, thorough bool) MatCase {
 	c.CLI = cli.Available() && rapid.IntRange(0, 19).Draw(t, "cli") == 0
 	if rapid.IntRange(0, 2).Draw(t, "mem") == 0 {
 		c.Mem = rapid.IntRange(1, 50).Draw(t, "memsel")
+	}
+	if rapid.IntRange(0, 3).Draw(t, "history") == 0 {
+		c.Trees = c.Trees[:1]
+		c.CLI = false
+		if c.Metric == "boot" {
+			// the oracle reads the edited tree's text, which cannot show a support next to an inner
+			// name (renaming operations name inner nodes)
+			c.Metric = "brlen"
+		}
+		for i, n := 0, rapid.IntRange(1, 4).Draw(t, "nops"); i < n; i++ {
+			c.Ops = append(c.Ops, ops.GenOp(t, historyKinds))
+		}
 	}
 	return c
 }
@@ -84,6 +100,53 @@ func checkMat(c MatCase) error {
 	var wantSum [][]float64
 	var names []string
 	var gts []*tree.Tree
+	if len(c.Ops) > 0 {
+		// the matrix of a tree that was indexed and then edited: the oracle reads the edited tree's text
+		t, err := gt.FromModel(c.Trees[0])
+		if err != nil {
+			return err
+		}
+		if err := t.ReinitIndexes(); err != nil {
+			return err
+		}
+		st := ops.State{T: t}
+		for _, op := range c.Ops {
+			before := st.T.Newick()
+			if status, _ := ops.Apply(&st, op); status == ops.Failed {
+				if st.T, err = gt.Parse(before); err != nil {
+					return err
+				}
+			}
+		}
+		m, err := gt.Read(st.T)
+		if err != nil {
+			return err
+		}
+		if _, err := ref.NewTaxa(m.Tips()); err != nil || len(m.Tips()) < 2 || len(m.Ch) < 2 {
+			return nil // duplicate names or a degenerate tree after the history: not this check's subject
+		}
+		mat, tips := st.T.ToDistanceMatrix(gm)
+		wn, want, err := ref.DistMatrix(m, rm)
+		if err != nil {
+			return err
+		}
+		ex := exactFor([]*ref.Node{m}, c.Metric)
+		ctx := fmt.Sprintf("\n start %s\n after %d edits: %s metric %s", ref.Write(c.Trees[0]), len(c.Ops), st.T.Newick(), c.Metric)
+		if len(tips) != len(wn) {
+			return fmt.Errorf("matrix over %d tips, the edited tree has %d%s", len(tips), len(wn), ctx)
+		}
+		for i := range wn {
+			if tips[i].Name() != wn[i] {
+				return fmt.Errorf("row %d is tip %q, tip-name order puts %q there%s", i, tips[i].Name(), wn[i], ctx)
+			}
+			for j := range wn {
+				if !ref.Close(mat[i][j], want[i][j], ex) {
+					return fmt.Errorf("after an edit history: distance %s-%s is %v, the path sum is %v%s", wn[i], wn[j], mat[i][j], want[i][j], ctx)
+				}
+			}
+		}
+		return nil
+	}
 	for k, m := range c.Trees {
 		t, err := gt.FromModel(m)
 		if err != nil {
@@ -227,12 +290,15 @@ func checkMatCLI(c MatCase, names []string, wantSum [][]float64) error {
 func TestC14Matrix(t *testing.T) {
 	h.Run(t, h.Spec[MatCase]{
 		Property: "C14", Name: "matrix", Quick: 16000, Thorough: 800000,
-		Rule: "trees (2..12 tips, 5% up to 40/150; rooted or not; multifurcating; lengths and supports none/all/mixed incl. zeros) x {brlen, boot, none}; one third of the cases with 1..7 further related trees on the same tips for the average; oracle = explicit path sums of the reference model (absent length = 0, absent support = 1): every entry (exact for dyadic weights, tolerance 1e-9 otherwise), zero diagonal, symmetry, rows in tip-name order, average = entrywise mean; 5% of the cases also through `gotree matrix [--avg]`; non-trivial = >= 5 tips and a polytomy or a zero/absent weight",
+		Rule: "trees (2..12 tips, 5% up to 40/150; rooted or not; multifurcating; lengths and supports none/all/mixed incl. zeros) x {brlen, boot, none}; one third of the cases with 1..7 further related trees on the same tips for the average; one quarter of the cases compute the matrix of a tree that was indexed and then edited by 1-4 operations (rename, graft, prune, re-root ...), judged against the text of the edited tree; oracle = explicit path sums of the reference model (absent length = 0, absent support = 1): every entry (exact for dyadic weights, tolerance 1e-9 otherwise), zero diagonal, symmetry, rows in tip-name order, average = entrywise mean; 5% of the cases also through `gotree matrix [--avg]`; non-trivial = >= 5 tips and a polytomy or a zero/absent weight",
 		Gen: genMat, Check: checkMat,
 		Classify: func(c MatCase) (bool, []string) {
 			l := []string{"metric:" + c.Metric}
 			if len(c.Trees) > 1 {
 				l = append(l, "average")
+			}
+			if len(c.Ops) > 0 {
+				l = append(l, "after-edit-history")
 			}
 			if c.CLI {
 				l = append(l, "cli")
@@ -302,6 +368,9 @@ func genCut(t *rapid.T, thorough bool) CutCase {
 		thr = 0.5
 	}
 	cc := CutCase{Tree: m, Thr: thr, CLI: cli.Available() && rapid.IntRange(0, 19).Draw(t, "cli") == 0}
+	if cc.CLI && rapid.IntRange(0, 2).Draw(t, "defaultthr") == 0 {
+		cc.Thr = 0.5
+	}
 	if rapid.IntRange(0, 2).Draw(t, "mem") == 0 {
 		cc.Mem = rapid.IntRange(1, 50).Draw(t, "memsel")
 	}
@@ -386,7 +455,11 @@ func checkCut(c CutCase) error {
 	}
 	if c.CLI {
 		dir := cli.Scratch()
-		r := cli.Run(dir, ref.Write(c.Tree)+"\n", "brlen", "cut", "-l", strconv.FormatFloat(c.Thr, 'g', -1, 64))
+		cargs := []string{"brlen", "cut", "-l", strconv.FormatFloat(c.Thr, 'g', -1, 64)}
+		if c.Thr == 0.5 {
+			cargs = []string{"brlen", "cut"} // the documented default of -l is 0.5
+		}
+		r := cli.Run(dir, ref.Write(c.Tree)+"\n", cargs...)
 		if r.Code != 0 || r.TimedOut {
 			return fmt.Errorf("gotree brlen cut exited with %d: %s%s", r.Code, r.Stderr, ctx)
 		}
